@@ -354,6 +354,59 @@ def run(prog, ctx):
     # sibling reader calls pass their same-typed flags in the declared order (C11.A): a foreign image sets flag combinations this
     # library never writes, so crossed `compact` / `ooo` arguments only show on such images
     C.import_rules(res, prog, ctx, "C13.A", "C11", ("C11.A",), "crossed same-type arguments on the reader paths", 50)
+    # ---------------- C13.S / C13.D decoded compact theta sketches: (S) the seed hash stamped on the result comes from the image or from the
+    # seed the caller reads with -- never from a constant seed (serial version 1 carries no seed hash); (D) the ordered form is
+    # recorded only when the entries that were read verbatim from the image have been compared with each other
+    CT = "theta::sketch::CompactThetaSketch"
+    rdr = C.pub_fn(prog, CT, "deserialize")
+    n_sd = 0
+    if rdr is not None and CT in prog.adts:
+        names = [x[0] for x in prog.adts[CT]["variants"][0]["fields"]]
+        raw_readers = set()
+        for g in prog.fns.values():
+            if g.promoted or not g.id.startswith("theta::"):
+                continue
+            cs = [(st.get("callee") or "").rsplit("::", 1)[-1] for _, st in g.calls()]
+            if any(c.startswith("read_u64") for c in cs) and "push" in cs and not any(c.startswith("sort") or c.startswith("checked_add") for c in cs):
+                raw_readers.add(g.id)
+        for g in [rdr] + [x for x in C.reach_from(prog, [rdr.id]) if x.id != rdr.id and x.id.startswith("theta::sketch::") and not x.promoted]:
+            sg = None
+            for b in g.blocks:
+                if b.cleanup:
+                    continue
+                for i_, st in enumerate(b.stmts):
+                    if not (st[0] == "=" and st[2][0] == "agg" and isinstance(st[2][1], (list, tuple)) and st[2][1][0] == "adt" and st[2][1][1] == CT):
+                        continue
+                    sg = sg or sym.Sym(prog, g)
+                    ops = dict(zip(st[2][1][4], st[2][2]))
+                    if "seed_hash" in ops:
+                        n_sd += 1
+                        e = sg.at(b.idx, i_).operand(ops["seed_hash"])
+                        calls = [y for y in sym.walk(e) if y[0] == "call" and y[1].rsplit("::", 1)[-1] == "compute_seed_hash"]
+                        from_image = any(y[0] == "call" and "@" in str(y[1]) and "read_" in str(y[1]) for y in sym.walk(e))
+                        verdict = None
+                        if from_image:
+                            verdict = True
+                        elif calls:
+                            verdict = all(sym.contains(c, lambda t: t[0] in ("param", "var", "field")) for c in calls)
+                        res.tri(verdict, "C13.S", "C13.S|%s" % g.id, "%s stamps the decoded sketch with the hash of a constant seed (%s): an image read with the "
+                                "caller's seed comes back with another seed's hash and its re-serialized form is rejected by readers using that seed" % (g.id, show(e)[:80]), g.id, st[3])
+                    if "ordered" in ops and "entries" in ops:
+                        ee = sg.at(b.idx, i_).operand(ops["entries"])
+                        raw = any(y[0] == "call" and y[1] in raw_readers for y in sym.walk(ee))
+                        if not raw:
+                            continue
+                        n_sd += 1
+                        eo = sg.at(b.idx, i_).operand(ops["ordered"])
+                        looks = any(y[0] == "call" and y[1] in prog.fns and y[1] not in raw_readers and any(
+                            z[0] == "call" and z[1] in raw_readers for a in y[2] for z in sym.walk(a)) for y in sym.walk(eo))
+                        is_const_true = eo[0] == "const" and eo[1] in (1, True)
+                        only_flags = not looks and not sym.contains(eo, lambda t: t[0] == "call" and t[1] in raw_readers)
+                        verdict = True if looks else (False if (is_const_true or only_flags) else None)
+                        res.tri(verdict, "C13.D", "C13.D|%s" % g.id, "%s records the decoded entries as ordered (%s) without having compared them: the compressed writer "
+                                "subtracts consecutive entries and panics / wraps on an image whose entries are not ascending" % (g.id, show(eo)[:60]), g.id, st[3])
+    res.rule("C13.S", n_sd, 3, "seed hash and ordered flag of decoded compact theta sketches")
+    res.rule("C13.D", n_sd, 3, "ordered flag of decoded compact theta sketches (counted with C13.S)")
     res.explanation = ("reader I/O models extracted from MIR, simulated on every image variant of the published formats with branches evaluated on the "
                        "variant's preamble values")
     res.not_decided = "equality of decoded and encoded state; HLL4 updatable aux-table semantics"
